@@ -263,7 +263,8 @@ type BytecodeCompiler struct {
 	Errors                *diagnostic.SyncDiagnosticList
 	scopes                bytecodeScopes
 	loopJumpSets          []*bytecodeLoopJumpSet
-	offsetValueIds        []int // ids of integers in the value pool that represent bytecode offsets
+	offsetValueIds        []int           // ids of integers in the value pool that represent bytecode offsets
+	callsToRelocate       []*bytecodeCall // calls of this function recorded for later optimisation, their offsets move with the prologue
 	secondToLastOpCode    bytecode.OpCode
 	lastOpCode            bytecode.OpCode
 	parent                *BytecodeCompiler
@@ -1140,6 +1141,18 @@ func (c *BytecodeCompiler) prepLocals() {
 		currentValue := c.bytecode.Values[id].MustSmallInt()
 		c.bytecode.Values[id] = (currentValue + value.SmallInt(len(newInstructions))).ToValue()
 	}
+
+	c.relocateCalls(len(newInstructions))
+}
+
+// Shift the recorded offsets of this function's calls that await optimisation.
+func (c *BytecodeCompiler) relocateCalls(delta int) {
+	for _, call := range c.callsToRelocate {
+		if call.bytecode == c.bytecode {
+			call.bytecodeOffset += delta
+		}
+	}
+	c.callsToRelocate = nil
 }
 
 func (c *BytecodeCompiler) initLoopJumpSet(label string, returnsValFromLastIteration bool) {
@@ -9244,17 +9257,17 @@ func (c *BytecodeCompiler) compileOptimisedCallMethod(receiverType types.Type, n
 			tailCall,
 		)
 
-		c.globalData.callsToOptimise.Push(
-			newBytecodeCall(
-				name,
-				c.bytecode,
-				offset,
-				receiverNamespace,
-				argCount,
-				callSiteIndex,
-				tailCall,
-			),
+		call := newBytecodeCall(
+			name,
+			c.bytecode,
+			offset,
+			receiverNamespace,
+			argCount,
+			callSiteIndex,
+			tailCall,
 		)
+		c.callsToRelocate = append(c.callsToRelocate, call)
+		c.globalData.callsToOptimise.Push(call)
 		return
 	}
 
@@ -9278,17 +9291,17 @@ func (c *BytecodeCompiler) compileOptimisedCallMethod(receiverType types.Type, n
 			tailCall,
 		)
 
-		c.globalData.callsToOptimise.Push(
-			newBytecodeCall(
-				name,
-				c.bytecode,
-				offset,
-				receiverNamespace,
-				argCount,
-				callSiteIndex,
-				tailCall,
-			),
+		call := newBytecodeCall(
+			name,
+			c.bytecode,
+			offset,
+			receiverNamespace,
+			argCount,
+			callSiteIndex,
+			tailCall,
 		)
+		c.callsToRelocate = append(c.callsToRelocate, call)
+		c.globalData.callsToOptimise.Push(call)
 	default:
 		c.emitCallMethod(
 			vm.NewCallSiteInfo(name, argCount),
